@@ -1,4 +1,9 @@
-"""Per-property configuration of the check driver."""
+"""Configuration of the check driver. Per-property settings live in tools/cfg/Cxx.json:
+  rule, exhaustive, exhaustive_note, assumptions, trusted (extra trusted-base lines),
+  tags (go build tags, default "verif"), env, timeout {quick,thorough}, search_rounds,
+  claim {text, design_ref, note, technique}   (-> MANIFEST.json via tools/mkmanifest.py)
+"""
+import json, os, glob
 
 ALLOWED_AXIOMS = []  # none: every theorem must be "Closed under the global context"
 
@@ -8,20 +13,11 @@ TRUSTED_BASE = [
     "Extraction: ExtrOcamlBasic only (bool/option/unit/prod/list/sumbool -> OCaml); N/Z/positive/nat stay inductive; no Extract Constant",
     "ocaml/base.ml, ocaml/k_*.ml, ocaml/main.ml: line parsing, dispatch, statistics (hand-written glue)",
     "harness/*.go: case generation, drivers around the real packages, observation printing",
-    "check + tools/propcfg.py: orchestration, evidence; coq/gen/Extracted.v produced by `harness consts` from the compiled /repo packages",
+    "check + tools/: orchestration, evidence; coq/gen/Extracted.v produced by `harness consts` from the compiled /repo packages",
     "Hand-written Gallina models in coq/model are tied to /repo only by the correspondence run (tie B) and constant regeneration (tie A)",
 ]
 
-PROPS = {
-    'C03': {
-        'rule': ("exhaustive: Fin x Rsv(8) x Op(16) x Masked x 9 length classes x 21 states through ws.CheckHeader; "
-                 "all 65536 close codes x reason classes through ws.CheckCloseFrameData; NewCloseFrameBody/Parse* for "
-                 "reason lengths 0..130 (ASCII, multi-byte straddling the crop, random); all opcode/status predicates; "
-                 "Coq UTF-8 spec vs Go unicode/utf8. distinct = distinct observation lines (hash); non-trivial = "
-                 "header breaks >=1 rule / non-empty reason / every close-code case"),
-        'exhaustive': True,
-        'exhaustive_note': 'the header grid (per length class), the 65536 status codes and the 256 opcodes are enumerated completely',
-        'assumptions': ["Go's utf8.ValidString is represented by the Table 3-7 spec valid_utf8 (validated by the U8 cases)",
-                        "opcodes are 4-bit values (the theorem's h_op < 16); Length is any int64"],
-    },
-}
+_D = os.path.join(os.path.dirname(os.path.abspath(__file__)), 'cfg')
+PROPS = {}
+for _p in sorted(glob.glob(os.path.join(_D, 'C*.json'))):
+    PROPS[os.path.basename(_p)[:-5]] = json.load(open(_p))
